@@ -208,14 +208,15 @@ def run_reshuffle(case):
     tr = Tracker(**kw)
     mods["tracker"] = tr
     tr.rng = Script([dd, dd])
-    st.append(X=np.array(xs), Y=np.full(n, 4.2), Z=np.array([0.9 * h for h in hs]))
+    # shallow-cell particles start near their bottom (they pass it), deep-cell particles at mid depth (nobody passes the deepest bottom)
+    st.append(X=np.array(xs), Y=np.full(n, 4.2), Z=np.array([0.9 * h if h == h0 else 0.5 * h for h in hs]))
     viols = []
     for step in range(2):
         mods["time"].update()
         if step == 1:  # one particle dies, is removed, and another is released: same count, every slot now holds another cell
             st["alive"][0] = False
             st.compactify()
-            st.append(X=3.2 if xs[-1] > 4.5 else 6.2, Y=4.2, Z=0.9 * (h0 if xs[-1] > 4.5 else 2 * h0))
+            st.append(X=3.2 if xs[-1] > 4.5 else 6.2, Y=4.2, Z=(0.9 * h0 if xs[-1] > 4.5 else 1.0 * h0))
         fo.update()
         zb, xb = st.Z.copy(), st.X.copy()
         try:
@@ -240,7 +241,8 @@ def run_roms(case):
 
     jj, ii = np.meshgrid(np.arange(8), np.arange(10), indexing="ij")
     h = 20.0 + 13.0 * ((ii * 3 + jj * 5) % 4)
-    w = world.World(imax=10, jmax=8, N=2, h=h, dx=100.0)
+    # in half of the cases the critical depth hc exceeds the depth of the shallowest cells: the bottom is still the cell's own h
+    w = world.World(imax=10, jmax=8, N=2, h=h, dx=100.0, hc=25.0 if case["subgrid"] in (None, [3, 9, 1, 7]) else 0.0)
     d = util.scratch("c15")
     f = w.write_file(d / "g.nc", [dict(t=S0, **w.zeros())])
     sg = case["subgrid"]
